@@ -1,0 +1,87 @@
+//! Verification-only virtual clock
+//!
+//! Under `--cfg koto_verif` the VM's execution-limit logic reads this thread-local clock instead
+//! of the host's. The clock advances by a fixed quantum per executed instruction, which makes
+//! timeout behaviour a deterministic function of the executed program. A per-thread tick budget
+//! cuts runaway executions by unwinding with a [BudgetExhausted] payload.
+
+use std::{
+    cell::Cell,
+    ops::{Add, Sub},
+    time::Duration,
+};
+
+thread_local! {
+    static NOW_NS: Cell<u64> = const { Cell::new(0) };
+    static QUANTUM_NS: Cell<u64> = const { Cell::new(0) };
+    static TICKS: Cell<u64> = const { Cell::new(0) };
+    static BUDGET: Cell<u64> = const { Cell::new(u64::MAX) };
+}
+
+/// The panic payload used when the tick budget is exhausted
+#[derive(Debug, Clone, Copy)]
+pub struct BudgetExhausted;
+
+/// Resets the calling thread's clock: time zero, the given quantum per tick, and tick budget
+pub fn reset(quantum_ns: u64, budget_ticks: u64) {
+    NOW_NS.with(|c| c.set(0));
+    QUANTUM_NS.with(|c| c.set(quantum_ns));
+    TICKS.with(|c| c.set(0));
+    BUDGET.with(|c| c.set(budget_ticks));
+}
+
+/// The current virtual time in nanoseconds
+pub fn now_ns() -> u64 {
+    NOW_NS.with(|c| c.get())
+}
+
+/// The number of ticks since the last reset
+pub fn ticks() -> u64 {
+    TICKS.with(|c| c.get())
+}
+
+/// Advances the clock by one quantum, called once per executed instruction
+#[inline]
+pub fn tick() {
+    let ticks = TICKS.with(|c| {
+        let t = c.get() + 1;
+        c.set(t);
+        t
+    });
+    let quantum = QUANTUM_NS.with(|c| c.get());
+    if quantum != 0 {
+        NOW_NS.with(|c| c.set(c.get().saturating_add(quantum)));
+    }
+    if ticks > BUDGET.with(|c| c.get()) {
+        // Disarm the budget so that unwinding code can't trigger a second panic
+        BUDGET.with(|c| c.set(u64::MAX));
+        std::panic::panic_any(BudgetExhausted);
+    }
+}
+
+/// A point in virtual time, a drop-in for the parts of `Instant` used by the VM
+#[derive(Debug, Clone, Copy, PartialEq, Eq, PartialOrd, Ord)]
+pub struct Instant(u64);
+
+impl Instant {
+    /// The current virtual time
+    pub fn now() -> Self {
+        Self(now_ns())
+    }
+}
+
+impl Add<Duration> for Instant {
+    type Output = Instant;
+
+    fn add(self, rhs: Duration) -> Instant {
+        Instant(self.0.saturating_add(rhs.as_nanos().min(u64::MAX as u128) as u64))
+    }
+}
+
+impl Sub<Instant> for Instant {
+    type Output = Duration;
+
+    fn sub(self, rhs: Instant) -> Duration {
+        Duration::from_nanos(self.0.saturating_sub(rhs.0))
+    }
+}
